@@ -37,6 +37,22 @@ func callerCtx() string {
 	return ""
 }
 
+// calledFrom reports whether a function whose name contains fn is on the caller's stack.
+func calledFrom(fn string) bool {
+	var pcs [32]uintptr
+	n := runtime.Callers(2, pcs[:])
+	frames := runtime.CallersFrames(pcs[:n])
+	for {
+		f, more := frames.Next()
+		if strings.Contains(f.Function, fn) {
+			return true
+		}
+		if !more {
+			return false
+		}
+	}
+}
+
 // storageOp wraps one mutating storage call of a live instance: it numbers the
 // call, records it, and implements "crash immediately before/after the k-th
 // storage operation" by capturing the directory as the disk at that instant.
@@ -201,9 +217,11 @@ func (s *SnapWrap) NewSnapshotFile(index, term uint64, conf []byte) (raft.Snapsh
 		collide = true
 	}
 	in.node.lastSnapNano = now
+	in.node.smu.Unlock()
+	c.mu.Lock()
 	c.fileSeq++
 	id := c.fileSeq
-	in.node.smu.Unlock()
+	c.mu.Unlock()
 	ctx := callerCtx()
 	origin := "local"
 	if ctx == "InstallSnapshot" {
